@@ -247,6 +247,44 @@ theorem distL_ok (d : K) : ∀ (cs : List (PTree K)), (tipsL cs).Nodup →
         · exact Or.inr (Or.inr hv)
 end
 
+/-! ### root-to-tip depth and distance across two children of a node -/
+theorem memF_sum_perm (d : K) (p : String) {S S' : List (Split K)} (h : S.Perm S') :
+    sumBy (memF d p) S = sumBy (memF d p) S' := sumBy_perm _ h
+
+/-- for a node with children `pre ++ c :: post` (distinct tips), a tip `p` below `c` and a tip `q`
+below another child: the depth of `p` is the length of `c` plus its depth in `c`, and the
+distance between `p` and `q` is the sum of their depths -/
+theorem depth_dist_at_node (d : K) (pre post : List (PTree K)) (c : PTree K)
+    (hnd : (tipsL (pre ++ c :: post)).Nodup) (p q : String) (hp : p ∈ tips c)
+    (hq : q ∈ tipsL (pre ++ c :: post)) (hqc : q ∉ tips c) :
+    sumBy (memF d p) (splitsL (pre ++ c :: post)) = lenOr d c.len + sumBy (memF d p) (splits c) ∧
+    sumBy (splitW d p q) (splitsL (pre ++ c :: post)) =
+      sumBy (memF d p) (splitsL (pre ++ c :: post)) + sumBy (memF d q) (splitsL (pre ++ c :: post)) := by
+  have hperm : (pre ++ c :: post).Perm (c :: (pre ++ post)) := List.perm_middle
+  have hnd' : (tipsL (c :: (pre ++ post))).Nodup := ((tipsL_perm hperm).nodup_iff).1 hnd
+  have hq' : q ∈ tipsL (pre ++ post) := by
+    have := ((tipsL_perm hperm).mem_iff).1 hq
+    simp only [tipsL, List.mem_append] at this
+    rcases this with h | h
+    · exact absurd h hqc
+    · exact h
+  simp only [tipsL] at hnd'
+  obtain ⟨_, _, hdisj⟩ := List.nodup_append.1 hnd'
+  have hpr : p ∉ tipsL (pre ++ post) := fun h => hdisj p hp p h rfl
+  have zc : ∀ s ∈ edgeSplit c :: splits c, q ∉ s.side := fun s hs h => hqc (child_sides c s hs q h)
+  have zr : ∀ s ∈ splitsL (pre ++ post), p ∉ s.side := fun s hs h => hpr (sidesL_subset _ s hs p h)
+  have hsplit : splitsL (c :: (pre ++ post)) = (edgeSplit c :: splits c) ++ splitsL (pre ++ post) := by
+    simp [splitsL]
+  have hS := splitsL_perm hperm
+  have e1 : sumBy (memF d p) (splitsL (pre ++ c :: post)) = lenOr d c.len + sumBy (memF d p) (splits c) := by
+    rw [sumBy_perm _ hS, hsplit, sumBy_append, memF_sum_zero d p _ zr]
+    simp [sumBy, memF, edgeSplit, hp]
+  have e2 : sumBy (memF d q) (splitsL (pre ++ c :: post)) = sumBy (memF d q) (splitsL (pre ++ post)) := by
+    rw [sumBy_perm _ hS, hsplit, sumBy_append, memF_sum_zero d q _ zc, zero_add]
+  refine ⟨e1, ?_⟩
+  rw [e2, sumBy_perm (splitW d p q) hS, sumBy_perm (memF d p) hS, hsplit, sumBy_append, sumBy_append,
+    splitW_sum_left d p q _ zc, splitW_sum_right d p q _ zr, memF_sum_zero d p _ zr, add_zero]
+
 /-- `tree.get_distances()[(a, b)]` (model: last write into the dict) is the specification distance -/
 theorem getDistances_lookup (d : K) (t : PTree K) (hnd : (tips t).Nodup) (a b : String)
     (ha : a ∈ tips t) (hb : b ∈ tips t) (hab : a ≠ b) :
